@@ -554,12 +554,16 @@ __setlocale(const char *ln, size_t lz, void(*setf)(struct loc_s))
 			goto clo;
 		}
 
-		/* none of the locales should be a prefix to another */
-		if (UNLIKELY((l = xmemmem(m, fz, ln, lz)) == NULL)) {
+		/* look for a line that consists of the locale name */
+		for (l = m; (l = xmemmem(l, fz - (l - m), ln, lz)) != NULL; l++) {
+			if ((l == m || l[-1] == '\n') &&
+			    l + lz < m + fz && l[lz] == '\n') {
+				break;
+			}
+		}
+		if (UNLIKELY(l == NULL)) {
 			;
-		} else if (UNLIKELY(l[lz++] != '\n')) {
-			;
-		} else if (snarf_ln(&loc, l + lz, fz - (l + lz - m)) < 0) {
+		} else if (lz++, snarf_ln(&loc, l + lz, fz - (l + lz - m)) < 0) {
 			/* ... so we've found the one match
 			 * but reading the locale lines went pearshaped */
 			;
